@@ -610,3 +610,53 @@ theorem scan_exact (n : Nat) : ∀ (ops : List Op) (a : AState) (c : CState) (po
         (fun u hm => hu u (List.mem_append_right _ hm))
 
 end Cppcheck.LeakStraight
+
+namespace Cppcheck.LibGroups
+
+theorem lookup_map_append_mem {n : String} {g : Nat} : ∀ {l : List String} {rest : List (String × Nat)}, n ∈ l →
+    (l.map (fun m => (m, g)) ++ rest).lookup n = some g
+  | [], _, h => by simp at h
+  | m :: l, rest, h => by
+    by_cases hm : n = m
+    · subst hm; simp [List.lookup]
+    · have hl : n ∈ l := by simpa [hm] using h
+      have : (n == m) = false := by simpa using hm
+      simp only [List.map_cons, List.cons_append, List.lookup, this]
+      exact lookup_map_append_mem hl
+
+theorem lookup_map_append_not_mem {n : String} {g : Nat} : ∀ {l : List String} {rest : List (String × Nat)}, n ∉ l →
+    (l.map (fun m => (m, g)) ++ rest).lookup n = rest.lookup n
+  | [], _, _ => by simp
+  | m :: l, rest, h => by
+    have hm : n ≠ m := fun e => h (by simp [e])
+    have hl : n ∉ l := fun e => h (by simp [e])
+    have : (n == m) = false := by simpa using hm
+    simp only [List.map_cons, List.cons_append, List.lookup, this]
+    exact lookup_map_append_not_mem hl
+
+theorem firstKnown_some {dealloc : List (String × Nat)} : ∀ {names : List String} {g : Nat},
+    firstKnown dealloc names = some g → ∃ n ∈ names, dealloc.lookup n = some g
+  | [], g, h => by simp [firstKnown] at h
+  | n :: r, g, h => by
+    unfold firstKnown at h
+    cases hl : dealloc.lookup n with
+    | some g' => simp [hl] at h; subst h; exact ⟨n, List.mem_cons_self, hl⟩
+    | none =>
+      simp [hl] at h
+      obtain ⟨m, hm, hg⟩ := firstKnown_some h
+      exact ⟨m, List.mem_cons_of_mem _ hm, hg⟩
+
+theorem firstKnown_none {dealloc : List (String × Nat)} : ∀ {names : List String},
+    firstKnown dealloc names = none → ∀ n ∈ names, dealloc.lookup n = none
+  | [], _, n, hn => by simp at hn
+  | m :: r, h, n, hn => by
+    unfold firstKnown at h
+    cases hl : dealloc.lookup m with
+    | some g' => simp [hl] at h
+    | none =>
+      simp [hl] at h
+      rcases List.mem_cons.mp hn with e | e
+      · subst e; exact hl
+      · exact firstKnown_none h n e
+
+end Cppcheck.LibGroups
